@@ -62,13 +62,15 @@ pub fn observe(c: &Case) -> String {
     let ncc = components::node_connected_component(&g, &c.x).map(|hs| vec![hs.into_iter().collect::<Vec<u32>>()]);
     let num = components::number_of_connected_components(&g);
     let bfs: Vec<Vec<u32>> = g.get_all_node_names().into_iter().map(|x| g.breadth_first_search(x)).collect();
+    // C17: the order of the returned list is part of the answer - three more calls must return the very same lists
+    let bfssame = (0..3).all(|_| g.get_all_node_names().into_iter().map(|x| g.breadth_first_search(x)).collect::<Vec<Vec<u32>>>() == bfs);
     let eq = if c.k == 0 { vec![] } else { components::bfs_equal_size_partitions(&g, c.k) };
     let (num_s, num_t) = match &num { Ok(n) => (n.to_string(), format!("0 {}", n)), Err(e) => (format!("E{}", err_code(&e.kind)), format!("{} 0", err_code(&e.kind))) };
     let tok = format!("{} {} {} {} {} {} {}", tok_r(&cc), tok_r(&wcc), tok_r(&scc), tok_r(&ncc), num_t, tok_r(&Ok(bfs)), tok_r(&Ok(eq.clone())));
     format!(
-        "i.build=0|i.cc={}|i.wcc={}|i.scc={}|i.ncc={}|i.num={}|i.eq={}|i.tok={}",
+        "i.build=0|i.cc={}|i.wcc={}|i.scc={}|i.ncc={}|i.num={}|i.eq={}|i.bfssame={}|i.tok={}",
         p_r(&cc, p_sets_vec), p_r(&wcc, p_sets_vec), p_r(&scc, p_sets_vec), p_r(&ncc, p_sets_vec), num_s,
-        if c.k == 0 { "P".to_string() } else { p_parts(&eq) }, tok
+        if c.k == 0 { "P".to_string() } else { p_parts(&eq) }, bfssame as u8, tok
     )
 }
 
